@@ -871,8 +871,25 @@ def rule_pointer_flipped(repo):
     return rule_flip_cover(repo)
 
 
+def rule_installed_late(repo):
+    """an arbiter put in place with replace_component has a CHILD (the priority register): its update_ff block, constraints and
+    connections only exist at the top level if every component of the added subtree is registered -- decided by C15 (R-C15-sites)"""
+    from rules.c15 import rule_sites
+    r = rule_sites(repo)
+    return r
+
+
+def rule_cycle_settles(repo):
+    """when the arbiter sits in a block-level cycle (a parent block drives reqs and reads grants) the grants equal the round-robin
+    grant of the requests only if the fixed-point loop watches every signal written inside the cycle, also those written bit by
+    bit (reqs[i] @= ...) -- decided by C11 (R-C11-watch)"""
+    from rules.c11 import rule_watch
+    return rule_watch(repo)
+
+
 RULES = [rule_wiring, rule_grant, rule_siblings, rule_options, rule_clocking, rule_clocking_ffset,
-         rule_slice_nets_collected, rule_slice_nets_driven, rule_late_connections, rule_pointer_flipped]
+         rule_slice_nets_collected, rule_slice_nets_driven, rule_late_connections, rule_pointer_flipped,
+         rule_installed_late, rule_cycle_settles]
 THOROUGH_RULES = [rule_grant_larger]
 
 
